@@ -8,13 +8,16 @@
  *
  * One case per line:
  *
- *   R <file> <nthreads> <cachesize> <nreads> <seed> <flags>
+ *   R <file> <nthreads> <cachesize> <nreads> <seed> <flags> [hot=<page>,<page>,...]
  *       flags: 1 = touch lazily validated attributes before the threads start
  *              2 = threads also do page-map queries and attribute gets
  *              4 = clones share the translation (KDUMP_CLONE_XLAT)
  *              8 = threads also WRITE attributes with side effects (cache.size,
  *                  file.mmap_policy, arch.page_size re-set, file.zero_excluded = 0)
  *                  through kdump_set_attr, kdump_set_sub_attr and kdump_attr_ref_set
+ *      32 = fill failures: the format handlers' file reads (fcache_pread / fcache_get_chunk,
+ *           ld --wrap) fail at random in the reader threads; the threads read a small hot set of pages so
+ *           that failing fills hit entries other threads are attached to
  *      16 = the main thread's open / clone / free calls are recorded, too
  *           (printed as an extra thread after the readers)
  *   S <file> <nthreads> <iterations> <addr>
@@ -22,7 +25,10 @@
  *
  * Output (one line):
  *   R: N=<n> cap=<c> | <events of thread 0> | ... | ok=.. busy=.. bad=.. err=.. refsum=<p>,<m>,<r>
- *        nolock=<count>[:<first>] badbusy=<count> joined=<count>
+ *        nolock=<count>[:<first>] badbusy=<count> joined=<count> writes=<n> injected=<n>
+ *        postbusy=<n> persist=<n>   (after quiescence the main thread re-reads every page through
+ *        the base context: postbusy = reads refused as BUSY although nothing is in flight,
+ *        persist = pages whose bytes/status differ from the reference — wrong data that stays)
  *   S: N=<n> iters=<k> refsum=<p> expected=0
  *
  * Events (one token each, per thread, in program order):
@@ -43,6 +49,7 @@
 #include <unistd.h>
 #include <pthread.h>
 #include <sched.h>
+#include <errno.h>
 #include "kdumpfile-priv.h"
 
 extern unsigned long verif_cache_refsum(struct cache *cache);
@@ -165,6 +172,36 @@ void verif_cache_event(int fn, struct cache *cache, struct cache_entry *entry)
 	emit(t, b);
 }
 
+/* fill-failure injection: the format handlers' file reads (fcache_pread, fcache_get_chunk;
+ * ld --wrap of the internal symbols) fail at random in the reader threads, as a failing
+ * pread(2)/mmap(2) would make them fail */
+static __thread int inject_on;
+static __thread unsigned inject_state, inject_count;
+static int inject_now(void)
+{
+	if (!inject_on) return 0;
+	inject_state = inject_state * 1103515245u + 12345u;
+	if (((inject_state >> 16) % 6) != 0) return 0;
+	++inject_count;
+	return 1;
+}
+extern kdump_status __real__kdumpfile_priv_fcache_pread(struct fcache *fc, void *buf, size_t len,
+						       unsigned fidx, off_t pos);
+kdump_status __wrap__kdumpfile_priv_fcache_pread(struct fcache *fc, void *buf, size_t len,
+						unsigned fidx, off_t pos)
+{
+	if (inject_now()) { errno = EIO; return KDUMP_ERR_SYSTEM; }
+	return __real__kdumpfile_priv_fcache_pread(fc, buf, len, fidx, pos);
+}
+extern kdump_status __real__kdumpfile_priv_fcache_get_chunk(struct fcache *fc, struct fcache_chunk *fch,
+							   size_t len, unsigned fidx, off_t pos);
+kdump_status __wrap__kdumpfile_priv_fcache_get_chunk(struct fcache *fc, struct fcache_chunk *fch,
+						    size_t len, unsigned fidx, off_t pos)
+{
+	if (inject_now()) { errno = EIO; return KDUMP_ERR_SYSTEM; }
+	return __real__kdumpfile_priv_fcache_get_chunk(fc, fch, len, fidx, pos);
+}
+
 /* bracket a public API call in the calling thread's trace */
 static void api_mark(char c, int id)
 {
@@ -185,8 +222,9 @@ struct job {
 	unsigned npages;
 	unsigned char *ref;		/* npages * 4096 reference bytes */
 	int *refst;			/* reference status per page */
-	unsigned long ok, busy, bad, err, writes;
+	unsigned long ok, busy, bad, err, writes, injected;
 	unsigned cap0;
+	unsigned hot[8], nhot;
 	char firstbad[96];
 	pthread_barrier_t *bar;
 	/* stress */
@@ -204,15 +242,19 @@ static void *reader(void *arg)
 	unsigned i;
 
 	me = &j->ts;
+	if (j->flags & 32) { inject_on = 1; inject_state = s * 31u + 7; inject_count = 0; }
 	pthread_barrier_wait(j->bar);
 	for (i = 0; i < j->nreads; ++i) {
 		unsigned pg = lcg(&s) % j->npages;
 		unsigned kind = lcg(&s) % 8;
 		size_t len = 4096, off = 0, got;
+		unsigned inj0 = inject_count;
 		kdump_status st;
-		if ((j->flags & 8) && kind == 4 && (lcg(&s) % 3) == 0) {
-			/* attribute writes with side effects, through the three write entry points */
-			unsigned w = lcg(&s) % 6;
+		if ((j->flags & 32) && j->nhot) pg = j->hot[lcg(&s) % j->nhot];
+		if ((j->flags & 8) && ((kind == 4 && (lcg(&s) % 3) == 0) || ((j->flags & 32) && kind == 3))) {
+			/* attribute writes with side effects, through the three write entry points;
+			 * with fill-failure injection only cache.size (re-allocates the page cache) */
+			unsigned w = lcg(&s) % ((j->flags & 32) ? 3 : 6);
 			kdump_attr_t a;
 			kdump_attr_ref_t ref;
 			kdump_status ws;
@@ -316,6 +358,11 @@ static void *reader(void *arg)
 				if (j->refst[p] != KDUMP_OK) { wst = j->refst[p]; break; }
 				want += part; left -= part; o = 0; ++p;
 			}
+			if (inject_count != inj0 && st == KDUMP_ERR_SYSTEM && got <= want &&
+			    !memcmp(buf, j->ref + (size_t)pg * 4096 + off, got)) {
+				++j->injected;		/* an injected I/O error, reported as such */
+				continue;
+			}
 			if (st != wst || got != want ||
 			    memcmp(buf, j->ref + (size_t)pg * 4096 + off, want)) {
 				if (!j->bad++) {
@@ -331,6 +378,7 @@ static void *reader(void *arg)
 			else ++j->err;
 		}
 	}
+	inject_on = 0;
 	me = NULL;
 	return NULL;
 }
@@ -380,7 +428,6 @@ static void run_readers(char **f, int nf)
 	const char *first = "";
 	char firstbad[96] = "";
 
-	(void)nf;
 	if (nthreads < 1 || nthreads > MAXT) { printf("BADCASE\n"); return; }
 	/* reference answers from a separate, fresh context */
 	fresh = open_file(f[1], &fd2);
@@ -448,6 +495,20 @@ static void run_readers(char **f, int nf)
 		j->ts.ev = malloc(EVBUF);
 		j->nreads = nreads; j->seed = seed; j->flags = flags;
 		j->npages = npages; j->ref = ref; j->refst = refst; j->bar = &bar;
+		if (nf == 8) {
+			/* hot pages named by the case: hot=<p>,<p>,... (hex) */
+			char hb[128], *q;
+			snprintf(hb, sizeof hb, "%s", strncmp(f[7], "hot=", 4) ? "" : f[7] + 4);
+			for (q = strtok(hb, ","); q && j->nhot < 8; q = strtok(NULL, ",")) {
+				unsigned hp = (unsigned)strtoul(q, NULL, 16);
+				if (hp < npages) j->hot[j->nhot++] = hp;
+			}
+		}
+		if (!j->nhot) {
+			unsigned p;
+			for (p = 0; p < npages && j->nhot < (unsigned)nthreads + 2 && j->nhot < 8; ++p)
+				if (refst[p] == KDUMP_OK) j->hot[j->nhot++] = p;
+		}
 	}
 	me = NULL;
 	recording = 1;
@@ -460,7 +521,24 @@ static void run_readers(char **f, int nf)
 	{
 		unsigned long rs1 = verif_cache_refsum(base->shared->cache),
 			rs2 = verif_cache_refsum(base->shared->fcache->cache),
-			rs3 = verif_cache_refsum(base->shared->fcache->fbcache), writes = 0;
+			rs3 = verif_cache_refsum(base->shared->fcache->fbcache), writes = 0,
+			injected = 0, postbusy = 0, persist = 0;
+		/* after quiescence: nothing is in flight, so no read may be refused, and every page
+		 * (cached or not) must still read as in the reference run */
+		{
+			unsigned p;
+			unsigned char pb[4096];
+			for (p = 0; p < npages; ++p) {
+				size_t got = 4096;
+				kdump_status ps = kdump_read(base, KDUMP_MACHPHYSADDR, (kdump_addr_t)p * 4096, pb, &got);
+				if (ps == KDUMP_ERR_BUSY) ++postbusy;
+				else if ((int)ps != refst[p] ||
+					 (ps == KDUMP_OK && memcmp(pb, ref + (size_t)p * 4096, 4096))) {
+					if (!persist++ && !firstbad[0])
+						snprintf(firstbad, sizeof firstbad, "persistent:page=%x,status=%d/%d", p, (int)ps, refst[p]);
+				}
+			}
+		}
 		/* free everything (recorded with flag 16) before printing */
 		if (flags & 16) { me = &main_ts; recording = 1; }
 		for (i = 0; i < nthreads; ++i)
@@ -477,7 +555,7 @@ static void run_readers(char **f, int nf)
 			j->ts.ev[j->ts.len] = 0;
 			printf(" | %s", j->ts.len ? j->ts.ev : "-");
 			if (j->ts.len + 64 > j->ts.cap) printf("TRUNCATED");
-			ok += j->ok; busy += j->busy; bad += j->bad; err += j->err; writes += j->writes;
+			ok += j->ok; busy += j->busy; bad += j->bad; err += j->err; writes += j->writes; injected += j->injected;
 			if (j->ts.nolock && !nolock) first = j->ts.first_nolock;
 			joined += j->ts.joined;
 			if (j->bad && !firstbad[0]) snprintf(firstbad, sizeof firstbad, "%s", j->firstbad);
@@ -489,9 +567,9 @@ static void run_readers(char **f, int nf)
 		free(main_ts.ev);
 		/* a read may only be refused when the cache is smaller than the number of threads */
 		if (busy && cap >= nthreads) badbusy = busy;
-		printf(" | ok=%lu busy=%lu bad=%lu%s%s err=%lu refsum=%lu,%lu,%lu nolock=%lu%s%s badbusy=%lu joined=%lu writes=%lu\n",
-		       ok, busy, bad, bad ? ":" : "", firstbad, err, rs1, rs2, rs3,
-		       nolock, nolock ? ":" : "", first, badbusy, joined, writes);
+		printf(" | ok=%lu busy=%lu bad=%lu%s%s err=%lu refsum=%lu,%lu,%lu nolock=%lu%s%s badbusy=%lu joined=%lu writes=%lu injected=%lu postbusy=%lu persist=%lu\n",
+		       ok, busy, bad, (bad || persist) ? ":" : "", firstbad, err, rs1, rs2, rs3,
+		       nolock, nolock ? ":" : "", first, badbusy, joined, writes, injected, postbusy, persist);
 	}
 	free(ref); free(refst);
 	pthread_barrier_destroy(&bar);
@@ -546,12 +624,12 @@ int main(int argc, char **argv)
 		return 2;
 	}
 	while ((line = verif_getline(in))) {
-		char *f[8], *p;
+		char *f[10], *p;
 		int nf = 0;
 		line = strdup(line);
-		for (p = strtok(line, " "); p && nf < 8; p = strtok(NULL, " "))
+		for (p = strtok(line, " "); p && nf < 9; p = strtok(NULL, " "))
 			f[nf++] = p;
-		if (nf == 7 && !strcmp(f[0], "R"))
+		if ((nf == 7 || nf == 8) && !strcmp(f[0], "R"))
 			run_readers(f, nf);
 		else if (nf == 5 && !strcmp(f[0], "S"))
 			run_stress(f);
